@@ -630,7 +630,9 @@ def _synthetic(rnd, life, tspy, **kw):
 def gen_runs(ctx):
     rnd = ctx.rng
     runs = [('corpus:' + p.name, p.read_text()) for p in sorted(CORPUS.glob('*.txt'))]
-    runs += [('example:' + name, text) for name, text in configs.example_texts(ctx, slow=not ctx.quick)]
+    # (the two SBT examples cost 10+ CPU-minutes each and add no plant class: left to the properties about the reservoir)
+    runs += [('example:' + name, text) for name, text in configs.example_texts(ctx, slow=not ctx.quick)
+             if not name.startswith('example_SBT')]
     if ctx.quick:       # the SUTRA storage plant (5 s): two of its years in the quick tier, all of them in the thorough tier
         runs.append(('example:SUTRAExample1.txt', (fw.REPO / 'tests' / 'examples' / 'SUTRAExample1.txt').read_text()))
     lives = [1, 2, 3, 7] if ctx.quick else [1, 2, 3, 7, 30, 100]
